@@ -25,7 +25,7 @@ directive semantics followed by the end-of-file checks (dependencies found → s
 tags left over → error). -/
 theorem pp_refines_spec {W : Type} (Wd : World W) (mode : Mode) (le : List Char) (first trailing : Bool) (w : W)
     (lines : List (List Char)) :
-    ppPass Wd mode le first trailing w lines =
+    ppPass Wd mode le first trailing w lines true =
       (match spec (txtppSem Wd mode le) trailing ⟨TagState.empty, if first then .firstExec else .exec, w⟩ lines with
        | none => .err
        | some (s, out) =>
@@ -41,7 +41,7 @@ theorem pp_refines_spec {W : Type} (Wd : World W) (mode : Mode) (le : List Char)
 directive), a failing directive (missing include, failing command, tag misuse, bad temp target),
 or an unused tag at end of file. -/
 theorem fails_iff {W : Type} (Wd : World W) (le : List Char) (trailing : Bool) (w : W) (lines : List (List Char)) :
-    ppPass Wd .build le false trailing w lines = .err ↔
+    ppPass Wd .build le false trailing w lines true = .err ↔
       (parse (txtppSem Wd .build le) none lines = none ∨
        (∃ bs, parse (txtppSem Wd .build le) none lines = some bs ∧
           eval (txtppSem Wd .build le) ⟨TagState.empty, .exec, w⟩ bs = none) ∨
